@@ -119,19 +119,7 @@ struct Owning : rbt::container<Elem> {
    N* top() const { return this->root; }
    static int key_of(const N* n) { return n->data.key; }
    static int serial_of(const N* n) { return n->data.serial; }
-   ~Owning() { release(this->root); }   // harness-side clean-up; the library has no destructor here
-   static void release(N* n)
-   {
-      std::vector<N*> stack;
-      if (n) stack.push_back(n);
-      while (!stack.empty()) {
-         N* x = stack.back();
-         stack.pop_back();
-         if (x->left()) stack.push_back(x->left());
-         if (x->right()) stack.push_back(x->right());
-         std::allocator<N>().deallocate(x, 1);
-      }
-   }
+   // (the container releases its nodes itself when it is destroyed)
 };
 
 struct Intrusive : rbt::chain<INode> {
@@ -422,7 +410,7 @@ void exhaustive(const vf::Options& o, vf::Tally& tally)
          do {
             for (int cmp = 0; cmp < (n <= 6 ? 3 : 1); ++cmp) {
                Case c{flavor, cmp, p};
-               vf::Outcome out = run_case(c, o);
+               vf::Outcome out = vf::run_enumerated("C08", run_case, c, o, to_text(c));
                vf::account(o, tally, to_text(c), sample(c), out);
                ++n_cases;
             }
@@ -433,7 +421,7 @@ void exhaustive(const vf::Options& o, vf::Tally& tally)
          std::vector<int> s(len, 0);
          for (;;) {
             Case c{flavor, 0, s};
-            vf::Outcome out = run_case(c, o);
+            vf::Outcome out = vf::run_enumerated("C08", run_case, c, o, to_text(c));
             vf::account(o, tally, to_text(c), sample(c), out);
             ++n_cases;
             int i = len - 1;
